@@ -63,6 +63,8 @@ fn main() {
             for _ in 0..a.num("hist", 100) {
                 let h = match a.get("prop") {
                     "c01" => gens::c01(&mut rng, len),
+                    "c04" => gens::c04(&mut rng, len),
+                    "c05" => gens::c05(&mut rng, len),
                     p => panic!("no generator for {}", p),
                 };
                 out.put_all(&w.exec(&h));
